@@ -226,6 +226,269 @@ def kind_of(v):
   return O.node_kind(v) or type(v).__name__
 
 
+# -- scope programs -------------------------------------------------------------
+#
+# step['scopes'] is a list of scope names, entered outer -> inner around the call.
+# Besides the names of O.SCOPES ('partial' = pg.allow_partial(True), ...):
+#   'partial=True|False|None'     pg.allow_partial(v) entered (and left after the call)
+#   'typecheck=True|False'        pg.enable_type_check(v)
+#   'visit:<one of the above>'    entered and LEFT again at this nesting level,
+#                                 before the scopes that follow and before the call
+# The flag that applies to the call is the one of the innermost scope that is
+# still open ("the allow flag of immediate parent context is effective");
+# allow_partial(None) = honour the allow_partial flag of the objects themselves.
+
+_VALS = {'True': True, 'False': False, 'None': None}
+_FLAGS = {'partial': pg.allow_partial, 'typecheck': pg.enable_type_check}
+
+
+def parse_scope(name):
+  """(visit, flag, has value, value)."""
+  visit = name.startswith('visit:')
+  base = name[6:] if visit else name
+  if '=' in base:
+    flag, val = base.split('=')
+    return visit, flag, True, _VALS[val]
+  return visit, base, False, None
+
+
+@contextlib.contextmanager
+def scopes(names):
+  with contextlib.ExitStack() as st:
+    for name in names:
+      visit, flag, has_val, val = parse_scope(name)
+      cm = _FLAGS[flag](val) if has_val else O.SCOPES[flag]()
+      if visit:
+        with cm:
+          pass
+      else:
+        st.enter_context(cm)
+    yield
+
+
+def effective(names, flag, default):
+  """Reference: the value of `flag` that applies inside the scopes `names`."""
+  cur = default
+  for name in names or ():
+    visit, f, has_val, val = parse_scope(name)
+    if visit:
+      continue
+    if name == 'partial' and flag == 'partial':
+      cur = True
+    elif name == 'no_typecheck' and flag == 'typecheck':
+      cur = False
+    elif has_val and f == flag:
+      cur = val
+  return cur
+
+
+def eff_partial(names):
+  """True: partial values were explicitly allowed for the call; False: forbidden;
+  None: the objects' own allow_partial flags decide."""
+  return effective(names, 'partial', None)
+
+
+def partial_program(rng, p_simple=0.5):
+  """A stack of allow_partial scopes over {True, False, None}, depth 1-3, with
+  scopes that were left again before the call."""
+  if rng.random() < p_simple:
+    return ['partial']
+  out = []
+  for _ in range(rng.randint(1, 3)):
+    tok = f'partial={rng.choice([True, False, None])}'
+    out.append('visit:' + tok if rng.random() < 0.25 else tok)
+  return out
+
+
+def typecheck_program(rng):
+  """A stack of enable_type_check scopes whose innermost open one is True (the
+  property is quantified over type checking on)."""
+  out = []
+  for _ in range(rng.randint(1, 2)):
+    tok = f'typecheck={rng.random() < 0.5}'
+    out.append('visit:' + tok if rng.random() < 0.3 else tok)
+  if effective(out, 'typecheck', True) is not True:
+    out.append('typecheck=True')
+  return out
+
+
+def merge_programs(rng, a, b):
+  """Interleaves two programs, each keeping its own order."""
+  a, b, out = list(a), list(b), []
+  while a or b:
+    src = a if (a and (not b or rng.random() < 0.5)) else b
+    out.append(src.pop(0))
+  return out
+
+
+def scope_program(rng, p_partial, p_typecheck=0.05, p_simple=0.5):
+  out = partial_program(rng, p_simple) if rng.random() < p_partial else []
+  if rng.random() < p_typecheck:
+    out = merge_programs(rng, out, typecheck_program(rng))
+  return out
+
+
+def scope_suffix(names):
+  """'' for no / the plain pg.allow_partial(True) scope, else the reference
+  reading of the allow_partial program: effective value, nested or not."""
+  toks = [parse_scope(n) for n in names or ()]
+  toks = [t for t in toks if t[1] == 'partial' and t[2]]
+  if not toks:
+    return ''
+  return f'@allow_partial[{eff_partial(names)}{",nested" if len(toks) > 1 else ""}]'
+
+
+# -- related specs / reference diagnosis ------------------------------------------
+
+def _num_variant(rng, spec):
+  isint = isinstance(spec, T.Int)
+  def vary(b):
+    zero = 0 if isint else rng.choice([0.0, -0.0])
+    opts = [b, b, b, None, zero]
+    if b is not None:
+      opts += [b + 1, b - 1] if isint else [b + 0.5, b - 0.5]
+    else:
+      opts += [3 if isint else 2.5]
+    return rng.choice(opts)
+  lo, hi = vary(spec.min_value), vary(spec.max_value)
+  if lo is not None and hi is not None and lo > hi:
+    lo, hi = spec.min_value, spec.max_value
+  return (T.Int if isint else T.Float)(min_value=lo, max_value=hi)
+
+
+def variant_spec(rng, spec, top=True):
+  """A spec RELATED to `spec`: same shape and keys; numeric bounds, regular
+  expressions, size bounds, noneable / frozen / default modifiers are kept or
+  changed (looser, tighter, dropped, boundary value 0). What a user has at hand
+  when a value typed for one schema is handed to a neighbouring one."""
+  if isinstance(spec, (T.Int, T.Float)) and getattr(spec, 'transform', None) is None:
+    s = _num_variant(rng, spec) if rng.random() < 0.6 else type(spec)(
+        min_value=spec.min_value, max_value=spec.max_value)
+  elif isinstance(spec, T.Str):
+    rx = spec.regex.pattern if spec.regex is not None else None
+    s = T.Str(regex=rng.choice([rx, rx, None, rng.choice(REGEXES)]))
+  elif isinstance(spec, T.List):
+    lo, hi = spec.min_size or 0, spec.max_size
+    lo2 = rng.choice([lo, lo, 0, lo + 1])
+    hi2 = rng.choice([hi, hi, None, (hi + 1) if hi is not None else 3,
+                      max(hi - 1, 0) if hi is not None else 2])
+    if hi2 is not None and lo2 > hi2:
+      lo2, hi2 = lo, hi
+    s = T.List(variant_spec(rng, spec.element.value, False), min_size=lo2, max_size=hi2)
+  elif isinstance(spec, T.Dict):
+    if spec.schema is None:
+      return T.Dict()
+    fields = []
+    for k, f in spec.schema.fields.items():
+      fields.append((k.text if isinstance(k, T.ConstStrKey) else copy.deepcopy(k),
+                     variant_spec(rng, f.value, False)))
+    s = T.Dict(fields)
+  elif isinstance(spec, T.Enum):
+    vals = list(spec.values)
+    if rng.random() < 0.3:
+      vals = vals + ['zz'] if rng.random() < 0.5 else (vals[:-1] or vals)
+    s = T.Enum(vals[0], vals)
+  else:
+    try:
+      return copy.deepcopy(spec)
+    except Exception:  # pylint: disable=broad-except
+      return spec
+  try:
+    if spec.is_noneable and (top or rng.random() < 0.8):
+      s = s.noneable()
+    elif not top and not spec.is_noneable and rng.random() < 0.08:
+      s = s.noneable()
+    if spec.frozen and spec.has_default:
+      if rng.random() < 0.5:
+        s = s.freeze(copy.deepcopy(spec.default))
+    elif spec.has_default and spec.default is not None and not top and rng.random() < 0.7:
+      s = s.set_default(copy.deepcopy(spec.default))
+  except Exception:  # the kept default does not fit the changed bounds
+    pass             # pylint: disable=broad-except
+  return s
+
+
+# Why the typed-operand shortcut (KNOWN defect B) lets a value through: the
+# receiving spec's frozen-ness and List.min_size are not compared, and the
+# allow_partial flag is trusted over the content.
+DEFECT_B_REASONS = frozenset(['frozen', 'min_size', 'missing'])
+REASON_ORDER = ['range', 'regex', 'max_size', 'enum', 'none', 'type', 'undeclared']
+
+
+def diagnose(spec, v, out, depth=0):
+  """Adds to `out` WHY `v` is not a value of `spec`, by reference rules over the
+  public parameters of the spec only (no ValueSpec.apply)."""
+  if depth > 10 or getattr(spec, 'transform', None) is not None:
+    return
+  if SM.is_missing(v):
+    if not spec.has_default:
+      out.add('missing')
+    return
+  if spec.frozen:
+    if spec.has_default and not pg.eq(v, spec.default):
+      out.add('frozen')
+    return
+  if v is None:
+    if not spec.is_noneable:
+      out.add('none')
+    return
+  if isinstance(spec, (T.Int, T.Float)):
+    if isinstance(v, bool) or not isinstance(v, (int, float)) or (
+        isinstance(spec, T.Int) and not isinstance(v, int)):
+      out.add('type')
+    elif v == v and ((spec.min_value is not None and v < spec.min_value) or
+                     (spec.max_value is not None and v > spec.max_value)):
+      out.add('range')
+  elif isinstance(spec, T.Str):
+    if not isinstance(v, str):
+      out.add('type')
+    elif spec.regex is not None and not spec.regex.match(v):
+      out.add('regex')
+  elif isinstance(spec, T.Bool):
+    if not isinstance(v, bool):
+      out.add('type')
+  elif isinstance(spec, T.Enum):
+    try:
+      if v not in spec.values:
+        out.add('enum')
+    except Exception:  # pylint: disable=broad-except
+      pass
+  elif isinstance(spec, T.List):
+    if not isinstance(v, list):
+      out.add('type')
+      return
+    items = list(v.sym_values()) if isinstance(v, pg.List) else list(v)
+    if len(items) < (spec.min_size or 0):
+      out.add('min_size')
+    if spec.max_size is not None and len(items) > spec.max_size:
+      out.add('max_size')
+    for x in items:
+      diagnose(spec.element.value, x, out, depth + 1)
+  elif isinstance(spec, T.Dict):
+    if not isinstance(v, dict):
+      out.add('type')
+      return
+    if spec.schema is None:
+      return
+    items = list(v.sym_items()) if isinstance(v, pg.Dict) else list(v.items())
+    present = set()
+    for k, x in items:
+      present.add(k)
+      f = spec.schema.get_field(k)
+      if f is None:
+        out.add('undeclared')
+      else:
+        diagnose(f.value, x, out, depth + 1)
+    for k, f in spec.schema.fields.items():
+      if isinstance(k, T.ConstStrKey) and k.text not in present and not f.value.has_default:
+        out.add('missing')
+  elif isinstance(spec, T.Object) and isinstance(spec.cls, type):
+    if not isinstance(v, spec.cls):
+      out.add('type')
+    elif SM.first_missing(v) is not None:
+      out.add('missing')
+
+
 # -- operands -----------------------------------------------------------------
 
 def as_symbolic_desc(v):
@@ -267,14 +530,59 @@ def compatible_nodes(forest, target, spec, used_roots):
   return out
 
 
+def typed_operand_desc(rng, spec, partial):
+  """['T', ...] description of a pg.Dict / pg.List typed with a spec related to
+  the Dict/List spec `spec`, holding a value of ITS OWN spec; None if none found."""
+  kind = base_spec_kind(spec)
+  if kind not in ('Dict', 'List'):
+    return None
+  for _ in range(4):
+    own = variant_spec(rng, spec)
+    try:
+      content = V.value_for(own, rng, valid=True)
+      for _ in range(5):
+        if content is not None:
+          break
+        content = V.value_for(own, rng, valid=True)
+      if not isinstance(content, dict if kind == 'Dict' else list):
+        continue
+      d = ['T', kind, content, own, bool(partial)]
+      build_typed(d)
+      return d
+    except Exception:  # pylint: disable=broad-except
+      continue
+  return None
+
+
+def partial_obj_desc(rng, spec):
+  """['O', ...] description of an object of the class of an Object spec whose
+  constructor call omits required arguments (legal where partial values are
+  allowed, a TypeError elsewhere); None when the class has no required field."""
+  cls = spec.cls
+  if not (isinstance(cls, type) and issubclass(cls, pg.Object) and
+          getattr(M, cls.__name__, None) is cls):
+    return None
+  d = D.typed_obj(rng, cls.__name__, fill=0.4)
+  req = [k.text for k, f in cls.__schema__.fields.items()
+         if isinstance(k, T.ConstStrKey) and not f.value.has_default]
+  if not req:
+    return None
+  drop = set(rng.sample(req, rng.randint(1, len(req))))
+  return ['O', d[1], [kv for kv in d[2] if kv[0] not in drop]]
+
+
 class Values(H.ValueSource):
   """Adds to the shared value source, for locations typed with an Object, Dict
-  or List spec: live nodes of the forest (roots are moved, inner nodes copied)
-  and schema-less pg.Dict / pg.List operands (valid or invalid content)."""
+  or List spec: live nodes of the forest (roots are moved, inner nodes copied),
+  schema-less pg.Dict / pg.List operands (valid or invalid content), pg.Dict /
+  pg.List operands typed with a related spec of their own, and objects whose
+  constructor call omits required arguments."""
 
-  def __init__(self, forest, target, p_move=0.14, p_symbolic=0.3, stats=None, **kw):
+  def __init__(self, forest, target, p_move=0.14, p_symbolic=0.3, stats=None, p_typed=0.08,
+               p_partial_obj=0.12, **kw):
     super().__init__(forest, target, **kw)
     self.p_move, self.p_symbolic, self.stats = p_move, p_symbolic, stats
+    self.p_typed, self.p_partial_obj = p_typed, p_partial_obj
 
   def __call__(self, rng, node, key):
     field = None
@@ -305,7 +613,29 @@ class Values(H.ValueSource):
           if self.stats is not None:
             self.stats['schemaless_symbolic_operands'] += 1
           return d
+      elif (r < self.p_move + self.p_symbolic + self.p_typed and
+            base_spec_kind(field.value) != 'Object'):
+        flip = rng.random() < 0.15
+        d = typed_operand_desc(rng, field.value, SM.effective_partial(node) != flip)
+        if d is not None:
+          if self.stats is not None:
+            self.stats['related_typed_operands'] += 1
+          return d
+      elif r < self.p_move + self.p_partial_obj and base_spec_kind(field.value) == 'Object':
+        d = partial_obj_desc(rng, field.value)
+        if d is not None:
+          if self.stats is not None:
+            self.stats['partial_object_operands'] += 1
+          return d
     return super().__call__(rng, node, key)
+
+
+def build_typed(d):
+  """['T', 'Dict'|'List', plain content, value spec, allow_partial]: a symbolic
+  container that carries a spec of its own (built inside the scopes of the step)."""
+  _, kind, content, spec, partial = d
+  return (pg.Dict if kind == 'Dict' else pg.List)(
+      copy.deepcopy(content), value_spec=spec, allow_partial=partial)
 
 
 def execute(forest, step, record=None, replay=None):
@@ -320,13 +650,18 @@ def execute(forest, step, record=None, replay=None):
       return got[1] if got is not None else D.build(d, forest)
   else:
     def B(d):
-      v = D.build(d, forest)
+      if d and d[0] == 'T':
+        v = build_typed(d)
+      elif d and d[0] == 'ins' and d[1] and d[1][0] == 'T':
+        v = pg.Insertion(build_typed(d[1]))
+      else:
+        v = D.build(d, forest)
       if record is not None:
         x = v.value if isinstance(v, pg.Insertion) else v
         record.append((d, v, getattr(x, 'value_spec', None)))
       return v
   try:
-    with O.scopes(step.get('scopes', ())):
+    with scopes(step.get('scopes', ())):
       return 'ok', o.run(node, step['args'], B)
   except Exception as e:  # pylint: disable=broad-except
     return 'raise', e
@@ -376,6 +711,29 @@ def foreign_spec_kind(forest, at):
   return None
 
 
+def shortcut_reasons(forest, ridx):
+  """Reference reasons (see diagnose) why containers of root `ridx` that kept a
+  value_spec of their own are not values of the spec of the field they are in."""
+  out = set()
+  root = forest[ridx] if ridx < len(forest) else None
+  if not isinstance(root, pg.Symbolic):
+    return out
+  try:
+    for p, k, ch, _ in TM.walk(root):
+      if not isinstance(ch, (pg.Dict, pg.List)) or ch.value_spec is None:
+        continue
+      try:
+        f = p.sym_attr_field(k)
+      except Exception:  # pylint: disable=broad-except
+        continue
+      if (f is not None and isinstance(f.value, (T.Dict, T.List)) and
+          ch.value_spec is not f.value):
+        diagnose(f.value, ch, out)
+  except Exception:  # pylint: disable=broad-except
+    pass
+  return out
+
+
 def srepr(x):
   try:
     return repr(x)[:200]
@@ -422,7 +780,8 @@ def gen_make_missing(rng, forest):
   pool = deep if deep and rng.random() < 0.6 else (req if req and rng.random() < 0.8 else cands)
   ridx, keys, k, _, _ = rng.choice(pool)
   ridx, at, rel = address(rng, ridx, keys, [k])
-  sc = ['partial'] if rng.random() < 0.75 else []
+  # inside the plain pg.allow_partial(True) scope, a nested stack of scopes, or none
+  sc = scope_program(rng, 0.8, p_simple=0.45)
   return rebind_step(ridx, at, rel, ['missing'], rng, sc)
 
 
@@ -445,7 +804,7 @@ def gen_undeclared(rng, forest):
   names = [k for k in ('zz', 'nk', 'x1', 'undeclared_') if k not in declared]
   k = rng.choice(names)
   ridx, at, rel = address(rng, ridx, keys, [k])
-  sc = [s for s, p in (('partial', 0.1), ('notify_off', 0.05)) if rng.random() < p]
+  sc = scope_program(rng, 0.12) + (['notify_off'] if rng.random() < 0.05 else [])
   return rebind_step(ridx, at, rel, ['v', rng.choice([1, 'v', None, [1], {'a': 1}])], rng, sc)
 
 
@@ -508,6 +867,58 @@ def gen_move(rng, forest, stats, prefer=()):
   return None
 
 
+def gen_typed_operand(rng, forest, stats):
+  """A pg.Dict / pg.List typed with a spec of its own that is RELATED to the
+  Dict/List spec of a location (same shape; bounds, expressions, sizes, modifiers
+  kept or changed) and holding a value of its own spec is written to that
+  location: every write form, allow_partial flag mostly that of the receiver."""
+  targets = []
+  for ridx, keys, n in H.all_nodes(forest):
+    if not is_typed(n):
+      continue
+    if isinstance(n, pg.List):
+      f = n.sym_attr_field(0)
+      if f is not None and base_spec_kind(f.value) in ('Dict', 'List'):
+        targets.append((ridx, keys, n, len(n), f))
+      continue
+    schema, _ = SM.schema_of(n)
+    if schema is None:
+      continue
+    for ks, f in schema.fields.items():
+      if base_spec_kind(f.value) in ('Dict', 'List') and not f.value.frozen:
+        k = ks.text if isinstance(ks, T.ConstStrKey) else rng.choice(['p', 'q', 'r1'])
+        targets.append((ridx, keys, n, k, f))
+  if not targets:
+    return None
+  ridx, keys, n, k, f = rng.choice(targets)
+  flip = rng.random() < 0.15
+  v = typed_operand_desc(rng, f.value, SM.effective_partial(n) != flip)
+  if v is None:
+    return None
+  stats['related_typed_operands'] += 1
+  form = rng.random()
+  if isinstance(n, pg.List):
+    if form < 0.3:
+      return {'op': 'List.append', 'at': [ridx, keys], 'args': {'v': v}, 'scopes': []}
+    if form < 0.45:
+      return {'op': 'List.insert', 'at': [ridx, keys],
+              'args': {'i': rng.randint(0, len(n)), 'v': v}, 'scopes': []}
+    if form < 0.65 and len(n):
+      return {'op': 'List.__setitem__[int]', 'at': [ridx, keys],
+              'args': {'i': rng.randrange(len(n)), 'v': v}, 'scopes': ['writable']}
+    if form < 0.8:
+      return rebind_step(*address(rng, ridx, keys, [rng.randint(0, len(n))]), ['ins', v], rng, [])
+    return rebind_step(*address(rng, ridx, keys, [len(n)]), v, rng, [])
+  if form < 0.4:
+    op = 'Dict.__setitem__' if isinstance(n, pg.Dict) else 'Object.__setattr__'
+    if isinstance(n, pg.Dict) or k in set(n.sym_keys()):
+      return {'op': op, 'at': [ridx, keys], 'args': {'k': k, 'v': v}, 'scopes': ['writable']}
+  if form < 0.5 and isinstance(n, pg.Dict):
+    return {'op': 'Dict.update', 'at': [ridx, keys],
+            'args': {'items': [[k, v]], 'form': 'dict'}, 'scopes': []}
+  return rebind_step(*address(rng, ridx, keys, [k]), v, rng, [])
+
+
 def gen_step(rng, forest, p_scope, stats, max_nodes=60):
   """H.gen_step over the typed nodes of the forest with the widened value source."""
   nodes = H.all_nodes(forest)
@@ -528,7 +939,8 @@ def gen_step(rng, forest, p_scope, stats, max_nodes=60):
     args = o.gen(O.GenEnv(rng, vs, forest), node)
     if args is None:
       continue
-    sc = [name for name, p in p_scope.items() if rng.random() < p]
+    sc = [name for name, p in p_scope.items() if name != 'partial' and rng.random() < p]
+    sc += scope_program(rng, p_scope.get('partial', 0.0), p_simple=0.4)
     return {'op': o.name, 'at': [ridx, keys], 'args': args, 'scopes': sc}
   return None
 
@@ -606,7 +1018,7 @@ def run_case(ctx, i):
   if first:
     return
   trace, kinds, n_ok, n_rej = [], [], 0, 0
-  scope_p = {'writable': 0.45, 'notify_off': 0.08, 'partial': 0.1}
+  scope_p = {'writable': 0.45, 'notify_off': 0.08, 'partial': 0.12}
   n_steps = rng.randint(ctx.params['steps'] // 2, ctx.params['steps'])
 
   def heal_root(j):
@@ -623,14 +1035,18 @@ def run_case(ctx, i):
     o = O.OPS[step['op']]
     witness = {'root': label, 'history': trace[-12:]}
     found = collections.OrderedDict()
-    if 'partial' in step['scopes']:
+    in_partial = eff_partial(step['scopes']) is True
+    if in_partial:
       taint.add(step['at'][0])       # values were explicitly made partial
       c['partial_scope_writes'] += 1
+    if scope_suffix(step['scopes']):
+      c['scope_programs'] += 1
+      c['scope_program:' + scope_suffix(step['scopes'])[1:]] += 1
     # Operands of a rejected write are values of their own: if they carry a
     # schema afterwards they must satisfy it. (Their content is a don't-care.)
     clean, skip, flagged = [], set(), False
     if status == 'raise':
-      tol = (lambda *_: True) if 'partial' in step['scopes'] else None
+      tol = (lambda *_: True) if in_partial else None
       for d, x, pre_spec in operands_of(record):
         fresh = d[0] != 'node'
         if fresh and stored_in_parent(x):
@@ -691,7 +1107,7 @@ def run_case(ctx, i):
       n_ok += 1
       c['steps_ok'] += 1
       if o.effect == 'new' and any(result is r for r in forest) and (
-          step['at'][0] in taint or 'partial' in step['scopes'] or step.get('src_partial')):
+          step['at'][0] in taint or in_partial or step.get('src_partial')):
         # derived from a value that was explicitly made partial
         taint.add(next(j for j, r in enumerate(forest) if r is result))
     c['schema_ok_evals'] += 1
@@ -703,8 +1119,30 @@ def run_case(ctx, i):
         # the written subtree holds a container that kept a spec of its own
         # (it was stored through the typed-operand path), not the field's
         mech = f'foreign-spec[{fk}]'
+    mechs = {}
+    if found and mech.startswith(('typed-operand[', 'foreign-spec[')):
+      # WHY the content is not a value of the receiving spec, by reference rules:
+      # the mechanisms of known defect B keep the plain key, anything else (a
+      # numeric range, a regular expression, ...) is a mechanism of its own.
+      why = shortcut_reasons(forest, step['at'][0])
+      c['typed_operand_diagnoses'] += 1
+      other = [x for x in REASON_ORDER if x in why]
+      if other:
+        mech += '/' + other[0]
+      elif not why and mech.startswith('typed-operand['):
+        # (for foreign-spec the kept spec itself is the explanation: later writes
+        # were validated against it)
+        mech += '/unexplained'
+    elif found and scope_suffix(step['scopes']):
+      # a stack of allow_partial scopes: clauses that would not fire if every
+      # value counted as explicitly made partial are attributed to the stack
+      relaxed = {cl for cl, _ in SM.schema_ok_nodes(view, None, lambda *_: True)}
+      for clause in found:
+        if clause in ('missing-required', 'member-rejected') and clause not in relaxed:
+          mechs[clause] = mech + scope_suffix(step['scopes'])
     for clause, detail in found.items():
-      ctx.violation(clause, mech, f'after step {len(trace)}: {trace[-1]}\n{detail}', witness)
+      ctx.violation(clause, mechs.get(clause, mech),
+                    f'after step {len(trace)}: {trace[-1]}\n{detail}', witness)
     for j in skip:
       heal_root(j)
       c['operand_root_heals'] += 1
@@ -734,6 +1172,12 @@ def run_case(ctx, i):
     elif r < 0.26:
       step = gen_move(rng, forest, c)
       c['directed:move'] += step is not None
+    elif r < 0.34:
+      step = gen_typed_operand(rng, forest, c)
+      c['directed:related-typed-operand'] += step is not None
+    if step is not None and r >= 0.16 and rng.random() < 0.2:
+      # moves / typed operands inside a stack of allow_partial scopes
+      step['scopes'] = step['scopes'] + scope_program(rng, 1.0, p_simple=0.3)
     if step is None:
       step = gen_step(rng, forest, scope_p, c)
     if step is None:
@@ -790,7 +1234,7 @@ def run_case(ctx, i):
         if len(forest) < 7 and rng.random() < 0.5 and not stored_in_parent(x) and (
             x.sym_parent is None):
           forest.append(x)
-          if 'partial' in step['scopes']:
+          if eff_partial(step['scopes']) is True:
             taint.add(len(forest) - 1)
           c['operands_kept'] += 1
     if found:
